@@ -20,7 +20,7 @@ PROFILE = {'weights': {'alloc_put': 30, 'alloc_post': 16, 'alloc_delete': 10, 'r
 RACES = {'n_rps': 2, 'setup_ops': 18, 'existing_consumer_bias': 0.5, 'empty_bias': 0.3, 'model': False,
          'setup_weights': {'rp_delete': 0, 'alloc_put': 30, 'alloc_delete': 1, 'rc_rename': 0, 'rc_delete': 0, 'trait_delete': 0,
                            'rp_traits_set': 0, 'aggs_set': 0, 'rp_update': 0},
-         'race_kinds': {'alloc_put': 8, 'alloc_post': 3, 'reshape': 1, 'alloc_delete': 2},
+         'race_kinds': {'alloc_put': 8, 'alloc_post': 3, 'reshape': 1, 'alloc_delete': 4},
          'p_three': 0.0}
 
 
@@ -31,6 +31,6 @@ def run(chk):
     hist.run_histories(chk, n, 40, PROFILE, ['C12'])
     # beyond sequences: two in-flight allocation writes touching one consumer, every interleaving at transaction
     # granularity on the real application; "consumer record iff allocations" evaluated on the state each schedule ends in
-    conc.run_races(chk, ['C12'], 64 if chk.tier == 'quick' else 2000, 120, RACES)
+    conc.run_races(chk, ['C12'], 96 if chk.tier == 'quick' else 2000, 120, RACES)
     chk.cov['rule'] = ('random histories of 40 allocation-writing and -deleting requests over 4 consumers at microversions below 1.8, '
                        '1.8-1.27, 1.28-1.37 and >= 1.38; distinct = (operation, status) pairs; plus every interleaving of pairs of allocation writes on a common consumer')
